@@ -133,3 +133,17 @@ META["C11"] = M(
          "(lower / upper / permutation) and for reproducing the reference matrix; the returned operators' type tree is checked "
          "against the input's (Kronecker -> Kronecker of factors, BlockDiag -> BlockDiag with the same multiplicities, "
          "Diagonal/ScalarMul/Identity -> no Dense); distinct = function + canonical structure")
+
+META["C12"] = M(
+    shards={"quick": 16, "thorough": 64}, budget={"quick": 50, "thorough": 800},
+    floors={"quick": {"evals": 4000, "distinct": 400}, "thorough": {"evals": 80000, "distinct": 8000}},
+    required=["krylov-optimal-iterate", "iteration-cap", "product-count", "stopped-early-only-when-converged",
+              "stops-as-soon-as-converged", "info-iterations", "info-errors", "zero-rhs-exact-zero", "linear-in-b",
+              "columns-independent", "initial-iterate-is-x0", "recursive-residual-is-true-residual"],
+    rule="Hermitian positive-definite operators Q diag(l) Q^H (real/complex, n 1..200, cond 1..1e6, spectrum families uniform / "
+         "log-spaced / outliers / tight clusters / repeated), right-hand sides single and multiple with column norms spread over "
+         "12 orders and zero columns, x0 none/zero/random/exact, preconditioner none/Jacobi/random SPD/Nystrom, tol 1e-12..1e-1, "
+         "max_iters 0..2n, through cg() and inv(A, CG()) @ b; every loop state is recorded (loop-state tap) and products with A are "
+         "counted; per column: optimality against the extended-precision Krylov optimum in the calibrated regimes R1/R2, "
+         "residual consistency, monotone A-norm error, the stopping contract on logical steps, bookkeeping, exact zeros, "
+         "linearity and column independence; distinct = full configuration tuple")
